@@ -146,6 +146,7 @@ type FE struct {
 	recoverChecked bool
 	locals         map[string]types.Type
 	addrVars       map[types.Object]bool
+	loopWriteRefs  []string
 }
 
 type loopInfo struct {
@@ -531,5 +532,10 @@ func (fe *FE) loopFrameOb(st *State, base string, idx []string) {
 	if strings.HasPrefix(ref, "(+ cnt") {
 		return
 	}
-	fe.addOb(st, "loop-frame", sanitize(base)+"@"+fe.curPos, nil, "(or (= "+ref+" 0) (> "+ref+" cnt!entry))", "inside a loop only arrays/maps allocated by this activation are written (rows of pre-existing ones are kept across the loop havoc)")
+	goal := "(or (= " + ref + " 0) (> " + ref + " cnt!entry)"
+	for _, w := range fe.loopWriteRefs {
+		goal += " (= " + ref + " " + w + ")"
+	}
+	goal += ")"
+	fe.addOb(st, "loop-frame", sanitize(base)+"@"+fe.curPos, nil, goal, "inside a loop only arrays/maps allocated by this activation are written (rows of pre-existing ones are kept across the loop havoc)")
 }
